@@ -11,6 +11,7 @@ EXPLANATION = (
     "clears busy, dequeues FIFO and returns only with the queue observed empty or the channel busy again; (R6) calculate_duration "
     "= latency + calculate_busy (+ Uniform(0, jitter) from the passed RNG); (R7) calculate_busy has the shape (length*8)/bitrate divided in floating point, zero for bitrate 0. "
     '(R8) a channel is created idle with an empty queue and a zero byte counter. '
+    "(R4 also: the unbusy notification is scheduled before the message's exit event.) "
     "Decides these necessary conditions only; not numeric "
     "delays or behaviour over traffic patterns.")
 ASSUMPTIONS = ["VecDeque::push_back/pop_front are opposite ends", "a scheduled event is delivered (C01/C02)"]
